@@ -36,10 +36,17 @@ var detTypes = map[string]string{
 	"w": `"s" // {maxLength: 0}`,
 	"m": `{"x": @nowhere}`,
 	"r": `1 // {nosuchrule: 1}`,
+	"h": "{\n  \"k\": 1 // {or: [{type: \"integer\", min: 0}, {type: \"string\"}]}\n}",
+	"c": "{\n  \"p\": @n1 | @n2,\n  \"q\": @n3 | @n4\n}",
+	"o": "{\n  \"p\": 1, // {or: [{type: \"@n5\"}, {type: \"string\"}]}\n  \"q\": 5 // {or: [{type: \"integer\", min: 9}, {type: \"string\"}]}\n}",
+	"x": "{\n  \"p\": 1, // {min: 2}\n  \"q\": \"s\" // {maxLength: 0}\n}",
+	"g": "{ // {allOf: \"@a\"}\n  \"gk\": 1\n}",
 }
 
 func detRoot(root string, types []string) string {
 	switch root {
+	case "two-choices":
+		return "{\n  \"p\": @r1 | @r2,\n  \"q\": @r3 | @r4\n}"
 	case "refs-a":
 		return `{"p": @a}`
 	case "refs-all":
@@ -59,6 +66,7 @@ type detCase struct {
 	Root      string   `json:"root,omitempty"`
 	Order     []string `json:"order,omitempty"`
 	Sensitive bool     `json:"sensitive,omitempty"`
+	Reuse     string   `json:"reuse,omitempty"` // "fresh" | "second-root" | "prechecked" (Determinism.tla)
 	Entry     string   `json:"entry,omitempty"`
 	Text      string   `json:"text,omitempty"`
 	Reps      int      `json:"reps,omitempty"`
@@ -102,10 +110,31 @@ func detObserve(cs detCase) string {
 	case "project":
 		root := jschema.New("root", detRoot(cs.Root, cs.Order))
 		var sb strings.Builder
+		// the type objects; with Reuse they have been used before: registered on another root with the same
+		// text that was then compiled and asked everything, or checked on their own
+		objs := map[string]*jschema.JSchema{}
+		for _, t := range cs.Order {
+			objs[t] = jschema.New("@"+t, detTypes[t])
+		}
+		switch cs.Reuse {
+		case "second-root":
+			first := jschema.New("root", detRoot(cs.Root, cs.Order))
+			for _, t := range cs.Order {
+				_ = first.AddType("@"+t, objs[t])
+			}
+			_ = schemaObs(first)
+		case "prechecked":
+			for _, t := range cs.Order {
+				func() {
+					defer func() { _ = recover() }()
+					_ = objs[t].Check()
+				}()
+			}
+		}
 		// AddType results are observables of each call, keyed by type so that they can be compared across orders
 		res := map[string]string{}
 		for _, t := range cs.Order {
-			err := root.AddType("@"+t, jschema.New("@"+t, detTypes[t]))
+			err := root.AddType("@"+t, objs[t])
 			res[t] = errObs(err)
 		}
 		keys := make([]string, 0, len(res))
@@ -378,6 +407,9 @@ func runC09(c *core.Ctx) error {
 				scope := "across-processes"
 				if fmt.Sprint(g[i].cs.Order) != fmt.Sprint(g[0].cs.Order) {
 					scope = "across-registration-orders"
+				}
+				if g[i].cs.Reuse != g[0].cs.Reuse {
+					scope = "across-reuse-of-objects"
 				}
 				c.Report(map[string]any{"cases": []detCase{g[0].cs, g[i].cs}}, []core.Finding{{Class: "nondeterministic:" + scope + ":" + detDiffClass(g[0].full, g[i].full, g[i].cs),
 					What: detDiffWhat(g[0].full, g[i].full, g[i].cs)}})
